@@ -122,6 +122,15 @@ func editStruct(t *rapid.T, n *core.WNode, e wireEditCfg, depth int, stats map[s
 		k := rapid.IntRange(1, max(1, e.MaxInsert)).Draw(t, "ninsert")
 		for j := 0; j < k; j++ {
 			v, wt := genForeignValue(t, -1)
+			if depth <= 1 && stats["insert-large"] == 0 && rapid.IntRange(0, 11).Draw(t, "inslarge") == 0 {
+				// one unknown field larger than the decoder's block (2 KiB): a long string
+				big := make([]byte, rapid.SampledFrom([]int{2040, 2049, 2100, 4096, 5000, 9000}).Draw(t, "inslargen"))
+				for i := range big {
+					big[i] = byte('a' + i%23)
+				}
+				v, wt = core.WNode{T: core.WString, S: big}, core.WString
+				stats["insert-large"]++
+			}
 			var id uint16
 			if rapid.Bool().Draw(t, "insnear") && len(n.Fields) > 0 {
 				id = n.Fields[rapid.IntRange(0, len(n.Fields)-1).Draw(t, "insnearf")].ID + uint16(rapid.IntRange(1, 3).Draw(t, "insoff"))
